@@ -198,8 +198,8 @@ Section Shape.
         fun t =>
         match classify ty fmt enum cst nv sv ik items ai mni mxi uq props req ap mnp mxp allo anyo oneo no ref dflt title with
         | None => False
-        | Some (false, k) => kshape shape k items props req ap oneo t
-        | Some (true, k) => exists i, has t (DOption i) /\ kshape shape k items props req ap oneo i
+        | Some (false, k) => kshape shape k items props req ap (union_of oneo anyo) t
+        | Some (true, k) => exists i, has t (DOption i) /\ kshape shape k items props req ap (union_of oneo anyo) i
         end
     end.
 
@@ -1662,12 +1662,12 @@ Section ShapeMain.
 
   Lemma conv_SP : forall s, SP s.
   Proof.
-    apply schema_ind_p.
+    apply schema_ind_u.
     - intros b Hf. discriminate Hf.
-    - intros ty fmt enum cst nv sv ik items ai mni mxi uq props req ap mnp mxp allo anyo oneo no ref dflt title
-             IHitems IHprops IHap IHone _.
+    - intros ty fmt enum cst nv sv ik items ai mni mxi uq props req ap mnp mxp allo oneo no ref dflt title
+             IHitems IHprops IHap IHone.
       intros Hf nm s0 te s1 Hc Hw Hnx Hg Hnd Hfr.
-      pose proof Hf as Hfi. apply frag_obj_inv in Hfi. destruct Hfi as (nl & k & Hcl & _ & _ & -> & Hone & _).
+      pose proof Hf as Hfi. apply frag_obj_inv0 in Hfi. destruct Hfi as (nl & k & Hcl & _ & _ & Hone & _).
       cbn [frag] in Hf. rewrite Hcl in Hf. change (frag_kind cls D k items props req ap oneo = true) in Hf.
       cbn [conv union_of] in Hc. rewrite Hcl in Hc.
       cbn [names_of union_of] in Hnd, Hfr. rewrite Hcl in Hnd, Hfr.
@@ -1712,6 +1712,17 @@ Section ShapeMain.
           destruct te; try exact I; cbn [kkind] in Hkk; rewrite Hkk; reflexivity.
         * intros T He Hp. specialize (Hpy T He Hp). unfold payload_of. destruct te; try exact I; exact Hpy.
         * intros T He Hp t Hr. cbn [shape]. rewrite Hcl. exact (HS T He Hp t Hr).
+    - intros ty fmt enum cst nv sv ik items ai mni mxi uq props req ap mnp mxp allo bs no ref dflt title HO Hf nm s0 te s1 Hc Hw Hnx Hg Hnd Hfr.
+      destruct (frag_classify cls D _ _ _ _ _ _ _ _ _ _ _ _ _ _ _ _ _ _ _ _ _ _ _ _ Hf) as (x & Hcl).
+      rewrite (any_frag cls D _ _ _ _ _ _ _ _ _ _ _ _ _ _ _ _ _ _ _ _ _ _ _ x Hcl) in Hf. rewrite (any_conv cls D _ _ _ _ _ _ _ _ _ _ _ _ _ _ _ _ _ _ _ _ _ _ _ x Hcl) in Hc.
+      rewrite (any_names cls _ _ _ _ _ _ _ _ _ _ _ _ _ _ _ _ _ _ _ _ _ _ _ x Hcl) in Hnd, Hfr.
+      destruct (HO Hf nm s0 te s1 Hc Hw Hnx Hg Hnd Hfr) as [H1 H2 H3 H4 H5 H6 H7 H8].
+      split; [exact H1|exact H2|rewrite (any_names cls _ _ _ _ _ _ _ _ _ _ _ _ _ _ _ _ _ _ _ _ _ _ _ x Hcl); exact H3|exact H4|exact H5| | |].
+      + unfold te_kind in *. cbn [classify_s] in *. rewrite Hcl. rewrite (any_classify _ _ _ _ _ _ _ _ _ _ _ _ _ _ _ _ _ _ _ _ _ _ _ x Hcl) in H6. exact H6.
+      + intros T He Hp. specialize (H7 T He Hp). unfold payload_of in *. destruct te; exact H7.
+      + intros T He Hp t Hr. specialize (H8 T He Hp t Hr). cbn [shape] in *.
+        rewrite Hcl. rewrite (any_classify _ _ _ _ _ _ _ _ _ _ _ _ _ _ _ _ _ _ _ _ _ _ _ x Hcl) in H8. exact H8.
+    - intros ty fmt enum cst nv sv ik items ai mni mxi uq props req ap mnp mxp allo abs obs no ref dflt title Hf. rewrite both_frag in Hf. discriminate Hf.
   Qed.
 
   (* ---------------------------------------------------------------- definitions *)
